@@ -19,6 +19,7 @@ ghost("calls", "array")        # the Match objects run, in order
 ghost("nev", "int")            # formatter events so far, broadcast to every formatter (C15)
 ghost("ev_kind", "array")
 ghost("ev_arg", "array")
+ghost("ev_status", "array")    # for a result event: the status the step had when the event was emitted
 ghost("ctx_depth", "int")      # context scope depth (C13)
 ghost("ctx_scenario", "val")   # value of context.scenario (ABSENT when not set in any open scope)
 ghost("ctx_feature", "val")
